@@ -106,9 +106,14 @@ def run_case(c, d):
             rec["step_count_loaded"] = int(mc2.step_count)
             got = []
             s2 = type("S", (), {})()
+            loaded0 = observe(s2, mc2)
             for _ in mc2.srun(n - k):
                 got.append(observe(s2, mc2))
             rec["got"] = got
+            # the loaded dictionary is an input: rebuilding from it a second time (after the first rebuilt simulation has run) gives the same start
+            mc3 = cls.from_dict(data)
+            again0 = observe(s2, mc3)
+            rec["dict_reusable"] = all(loaded0.get(x) == again0.get(x) for x in ("arrays", "cell", "n", "rng", "step_count", "labels", "N"))
         except Exception as e:  # noqa: BLE001
             import traceback
             rec["error"] = f"{type(e).__name__}: {str(e)[:300]}"
